@@ -266,4 +266,8 @@ def main(rep: Report, replay: dict | None) -> None:
         rep.sample({"case": u["case"], "advertised": [u["rw"], u["rh"]],
                     "tokens": [t["k"] for t in u["norm"]["toks"]][:24]})
     rep.extra["renders"] = rep.evaluations
+    if not replay:
+        from .. import clear_replay
+
+        clear_replay.run(rep)  # beyond the list: clear() argument table + effect on placements
     rep.extra["distinct_streams"] = len(uniq)
